@@ -227,6 +227,14 @@ def weave_fn(unit, tmpl_rel, blk):
                 raise ExtractError('lost anchor: loop %d of %s (function has %d loops)'
                                    % (n, blk['addr'], len(loops)))
             inserts.setdefault(loops[n - 1][1], []).append((lines, 'loop%d' % n))
+        elif kind == 'loopend':
+            n = int(arg)
+            if n < 1 or n > len(loops):
+                raise ExtractError('lost anchor: loopend %d of %s (function has %d loops)'
+                                   % (n, blk['addr'], len(loops)))
+            close = match_close(body_st, loops[n - 1][1])
+            off = body.rfind('\n', 0, close) + 1
+            inserts.setdefault(off, []).append((lines, 'loopend%d' % n))
         elif kind in ('before', 'after', 'beforeeach', 'aftereach'):
             rx = re.compile(arg)
             body_first_line = sig_nl  # index into orig_lines of the body's first line
@@ -355,7 +363,10 @@ def load_template(unit, path, srcmap, seen=None):
                 if ts == '//@end':
                     i += 1
                     break
-                if ts.startswith('//@loop '):
+                if ts.startswith('//@loopend '):
+                    cur = ('loopend', ts.split()[1], [])
+                    blk['sections'].append(cur)
+                elif ts.startswith('//@loop '):
                     cur = ('loop', ts.split()[1], [])
                     blk['sections'].append(cur)
                 elif ts.startswith('//@beforeeach '):
